@@ -46,6 +46,8 @@ var c09Alphabet = []c09Op{
 	{"nested/inner-case", `{"w":{"j2":"b"}}`},
 	{"nested/inner-case", `{"w":{"j1":"b","j2":"a"}}`},
 	{"nested/leaf-after-inner-choice", `{"w":{"q2":"a"}}`},
+	{"nested/choice-after-leaf", `{"w":{"r1":"a","r2":"b"}}`},
+	{"nested/choice-after-leaf", `{"w":{"r3":"c"}}`},
 	{"outside", `{"w":{"keep":"a"}}`},
 	{"in-list", `{"e":[{"k":"a","x1":"a"}]}`},
 	{"in-list", `{"e":[{"k":"a","y1":"a"}]}`},
